@@ -45,9 +45,18 @@ pub extern "C" fn tsrun_fulfill_orders(
         .map(|i| unsafe {
             let resp = &*responses.add(i);
             let result = if resp.error.is_null() {
-                // Success case
+                // Success case. The caller may release its handle as soon as this call
+                // returns, so the stored response needs a guard of its own until the
+                // interpreter consumes it.
                 if let Some(val) = resp.value.as_ref() {
-                    Ok(RuntimeValue::unguarded(val.value().clone()))
+                    let value = val.value().clone();
+                    if let JsValue::Object(obj) = &value {
+                        let guard = ctx.interp.heap.create_guard();
+                        guard.guard(obj.cheap_clone());
+                        Ok(RuntimeValue::with_guard(value, guard))
+                    } else {
+                        Ok(RuntimeValue::unguarded(value))
+                    }
                 } else {
                     Ok(RuntimeValue::unguarded(JsValue::Undefined))
                 }
